@@ -1,0 +1,50 @@
+//go:build verif
+
+// Machine-checked contracts for this package (guard: build tag `verif`; this file contains comments only).
+// Read by /verif/bin/govc: each `//@ unit` section is one verification unit (the functions matching `filter`,
+// verified against the contracts of the section; callees are used through their contracts only).
+
+package errors
+
+//@ unit error_handler props=C12 filter=`errors\.ErrorHandler\)\.ServeHTTP$`
+//@ ghost wh int
+//@ ghost bw int
+//@ ghost errBodies int
+//@ ghost lastStatus int
+//@ ghost nextRet int
+//@ ghost panicked int
+//@ invariant wh >= 0 && bw >= 0 && errBodies >= 0
+
+//@ extern invoke:(github.com/tmpim/casket/caskethttp/httpserver.Handler).ServeHTTP
+//@   modifies ghost:wh, ghost:bw, ghost:nextRet
+//@   may_panic
+//@   ensures_on_panic wh >= old(wh) && bw >= old(bw)
+//@   ensures [H2] result0 >= 400 ==> (wh == old(wh) && bw == old(bw))
+//@   ensures wh >= old(wh) && bw >= old(bw) && nextRet == result0
+//@ extern invoke:(net/http.ResponseWriter).WriteHeader
+//@   modifies ghost:wh, ghost:lastStatus
+//@   ensures wh == old(wh) + 1 && lastStatus == statusCode
+//@ extern invoke:(net/http.ResponseWriter).Header
+//@   ensures result != nil
+//@ extern (net/http.Header).Set
+//@ extern fmt.Fprintln
+//@   modifies ghost:bw
+//@   ensures bw == old(bw) + 1
+//@ extern fmt.Sprintf
+
+//@ func (ErrorHandler).errorPage
+//@   modifies ghost:wh, ghost:bw, ghost:errBodies, ghost:lastStatus
+//@   ensures [page_once] errBodies == old(errBodies) + 1 && wh >= old(wh) + 1 && lastStatus == code
+//@ func (ErrorHandler).recovery
+//@   recovers
+//@   modifies ghost:wh, ghost:bw, ghost:errBodies, ghost:lastStatus
+//@   ensures [noop_unless_panicking] !panicking() ==> (wh == old(wh) && bw == old(bw) && errBodies == old(errBodies) && lastStatus == old(lastStatus))
+//@   ensures [panic_writes_500] panicking() ==> (wh >= old(wh) + 1 && lastStatus == 500)
+
+//@ func (ErrorHandler).ServeHTTP
+//@   requires r != nil && r.URL != nil && h.Next != nil && w != nil && h.Log != nil && panicked == 0
+//@   ensures [consumes_error_status] result0 < 400
+//@   ensures [error_page_once] (panicked == 0 && nextRet >= 400 && !(result1 != nil && h.Debug)) ==> (errBodies == old(errBodies) + 1 && lastStatus == nextRet && result0 == 0)
+//@   ensures [debug_writes_once] (panicked == 0 && result1 != nil && h.Debug) ==> (result0 == 0 && wh >= old(wh) + 1 && bw >= old(bw) + 1 && errBodies == old(errBodies))
+//@   ensures [success_untouched] (panicked == 0 && nextRet < 400 && result1 == nil) ==> (result0 == nextRet && errBodies == old(errBodies))
+//@   ensures [panic_contained] panicked == 1 ==> (result0 == 0 && wh >= old(wh) + 1 && lastStatus == 500)
